@@ -7,6 +7,7 @@
 import FianoModel.Uefi.HeaderLemmas
 
 namespace Fiano.Uefi
+open EditArith
 open Fiano
 
 /-- a section buffer the reader accepts on its own: header present, declared size = its length ≥ its
@@ -130,6 +131,7 @@ theorem sectionsOk_joinAll (l : List Bytes) (hl : ∀ b ∈ l, GoodSec b) (P : B
 end Fiano.Uefi
 
 namespace Fiano.Uefi
+open EditArith
 open Fiano
 
 theorem fld_hdr3 (n : Nat) (t : UInt8) (rest : Bytes) (hn : n < 16777216) :
